@@ -222,13 +222,12 @@ def cmd_ping(cmd):
 COMMANDS = {"opt": cmd_opt, "sfs": cmd_sfs, "greedy": cmd_greedy, "compare": cmd_compare, "ping": cmd_ping}
 
 # extra command sets (kept in separate files so that each property's driver stays readable)
-for _m in ("worker_ext",):
-    try:
-        _mod = __import__(_m)
-        COMMANDS.update(_mod.COMMANDS)
+import glob as _glob
+for _f in sorted(_glob.glob(os.path.join(os.path.dirname(os.path.abspath(__file__)), "worker_*.py"))):
+    _mod = __import__(os.path.basename(_f)[:-3])
+    COMMANDS.update(_mod.COMMANDS)
+    if hasattr(_mod, "bind"):
         _mod.bind(globals())
-    except ImportError:
-        pass
 
 
 def main():
